@@ -215,6 +215,21 @@ def check_sparse(case, rec):
                 'dense matrix form after an in-place tensor update does not reflect the update (stale result)')
         require(np.max(np.abs(np.asarray(Ms2.todense()) - f * ref)) <= 1e-12 * scale * ref.shape[0] if ref.size else True,
                 'sparse matrix form after an in-place tensor update does not reflect the update (stale result)')
+        # the same operator in another bond gauge: X = diag(2^k) on an interior bond (powers of two, so every product of entries is
+        # unchanged bit for bit); the channels of that bond now differ in scale by up to 2^140, the operator does not
+        if len(op.A) >= 2:
+            rng = np.random.default_rng(case['obj']['seed'] + 5)
+            b = 1 + int(rng.integers(0, len(op.A) - 1))
+            x = 2.0 ** rng.integers(-70, 71, size=op.A[b].shape[2])
+            op.A[b - 1] = op.A[b - 1] * x[None, None, None, :]
+            op.A[b] = op.A[b] / x[None, None, :, None]
+            Md3 = op.as_matrix(); Ms3 = op.as_matrix(sparse_format=True)
+            require(np.max(np.abs(np.asarray(Md3) - f * ref)) <= 1e-12 * scale * ref.shape[0] if ref.size else True,
+                    'dense matrix form changes under a power-of-two bond gauge')
+            require(np.max(np.abs(np.asarray(Ms3.todense()) - f * ref)) <= 1e-12 * scale * ref.shape[0] if ref.size else True,
+                    'sparse matrix form changes under a power-of-two bond gauge (entries dropped relative to another bond channel?)',
+                    err=float(np.max(np.abs(np.asarray(Ms3.todense()) - f * ref))) if ref.size else 0.0, scale=scale)
+            rec.label('bond_gauge_rescaled')
     rec.label('L=%d' % len(A0))
     rec.nontrivial = bool(np.linalg.norm(ref) > 0 and max(len(q) for q in case['obj']['qD']) >= 2)
 
